@@ -309,8 +309,6 @@ class Model(object):
       kind = 'CONTINUE'
     elif end in EXC_OF_END:
       kind = 'EXC:' + EXC_OF_END[end]
-      if end == 'RAISE_BADSTR':
-        x.unspecified.append('exception that cannot be rendered')
     elif end == 'FAIL_SUBTEST' and st is None:
       kind = 'EXC:InvalidPhaseResultError'
     elif end == 'BLOCK':
